@@ -404,3 +404,6 @@ def check(ctx):
     from .engine import import_rules
     # the database-level sync walks the registries: it reaches the handle the caller holds only if a name is registered once
     import_rules(ctx, "c11", {"registry-column", "lookup-before-create", "registry-grow-only"})
+    # only flush / sync lower the dirty flag: a read-only call (read_fill_buffer, a getter, an iterator) that stores to it
+    # turns the next sync into a no-op although updates are pending
+    import_rules(ctx, "c15", {"read-only-no-dirty-store"})
